@@ -48,7 +48,7 @@ def run(tier, seed, replay=None):
         for i, st in enumerate(states):
             off = rnd.choice([[0, 0, 0], [40, -25, 10], [-300, 200, 100]])
             cases.append({"k": i + 1, "p": list(st["p"]), "a": list(st["a"]), "b": list(st["b"]), "c": list(st["c"]), "t1": st["t1"], "t2": st["t2"], "cut2": st["cut2"],
-                          "unit": rnd.choice([2.0 ** -17, 2.0 ** -20]), "off": off, "den": st["out"]["r"]["den"], "cfg": ("B" if i % 2 else "A")})
+                          "unit": rnd.choice([2.0 ** -17, 2.0 ** -20, 2.0 ** -27, 2.0 ** -34]), "off": off, "den": st["out"]["r"]["den"], "cfg": ("B" if i % 2 else "A")})
         if replay:
             cases = [r["case"]]
         cp, op = os.path.join(work, "cases_%s.ndjson" % variant), os.path.join(work, "obs_%s.ndjson" % variant)
@@ -133,7 +133,7 @@ def run(tier, seed, replay=None):
     chk.cov["evaluations"] = total + nrun
     chk.cov["distinct_nontrivial"] = len(states)
     chk.cov["decisions_in_spec"] = decs
-    chk.cov["rule"] = "one case per state of ContactRuleMC (node position in the lattice box, 4 triangles, 24 type pairs, 2 cut-offs), replayed per contact model at two units and three offsets"
+    chk.cov["rule"] = "one case per state of ContactRuleMC (node position in the lattice box, 4 triangles, 24 type pairs, 2 cut-offs), replayed per contact model at four units (8e-6 ... 6e-11: penetrations far below any absolute tolerance) and three offsets"
     chk.assumptions += ["pairs of two epithelial cells can end in a coupling (order dependent) and are covered by C08 / C03, not here; same-cell exclusion and pair selection are part of the models' loops and are "
                         "covered by the whole-phase comparison (shared with C06)", "cut-offs are integer multiples of the lattice unit (squared cut-offs exact); the spring model's adhesion amplitude "
                         "involves sqrt(d2): only reciprocity, range and direction are checked for it"]
